@@ -13,7 +13,7 @@
 (* Numbers: rationals <<num, den>>; times: microseconds as small integers. *)
 (***************************************************************************)
 EXTENDS Integers, Sequences, FiniteSets, TLC, Json, IOUtils
-CONSTANTS Mode       \* "param" | "metric" | "measurement" | "trial" | "delta" | "config" | "judge"
+CONSTANTS Mode       \* "param" | "metric" | "measurement" | "trial" | "delta" | "config" | "sreq" | "sdec" | "ereq" | "edec" | "judge"
 
 \* ------------------------------------------------------------ parameters
 ParamCases ==
@@ -61,7 +61,25 @@ AfterEdit(c) == CASE c.edit = "delete_root" -> [c EXCEPT !.root = "absent"]
                   [] c.edit = "overwrite_root" -> [c EXCEPT !.root = "v"]
                   [] c.edit = "add_ns" -> [c EXCEPT !.ns = "v"]
                   [] OTHER -> c
-Expect(c) == IF Mode = "config" THEN AfterEdit(c) ELSE c
+
+\* ------------------------------------------- algorithm requests / decisions (the Pythia wire)
+\* An Optional string / measurement that is None and one that is empty are the same value ("unset"): a proto3 scalar has no
+\* third state.  The set of trial ids of an early-stopping request is different: None is documented as "all trials".
+Unset(x) == IF x \in {"none", "empty"} THEN "unset" ELSE x
+SuggestRequestCases == [count : {1, 3}, ckpt : {"none", "empty", "dir"}, guid : {"", "g"}, maxid : {0, 7},
+                        space : {"flat", "conditional"}, pmeta : {"absent", "v", "empty"}]
+SuggestDecisionCases == [nsug : 0..2, p : {"absent", "int0", "float0", "float15", "str_empty", "str_a"}, q : {"absent", "str_False"},
+                         smeta : {"absent", "v", "empty", "proto", "ns"}, dstudy : {"absent", "v", "empty", "proto"}, dtrial : {"absent", "v"}]
+EarlyStopRequestCases == [ids : {"none", "one", "two"}, ckpt : {"none", "empty", "dir"}, guid : {"", "g"}, maxid : {0, 7}]
+EarlyStopDecisionsCases == {c \in [n : 0..2, stop : BOOLEAN, pfm : {"none", "empty", "metric0", "metric"}, dstudy : {"absent", "v", "empty"},
+                                   dtrial : {"absent", "v"}] : c.n = 0 => (c.stop /\ c.pfm = "none")}
+ExpectReq(c) == [c EXCEPT !.ckpt = Unset(@)]
+ExpectDec(c) == [c EXCEPT !.pfm = Unset(@)]
+
+Expect(c) == CASE Mode = "config" -> AfterEdit(c)
+               [] Mode \in {"sreq", "ereq"} -> ExpectReq(c)
+               [] Mode = "edec" -> ExpectDec(c)
+               [] OTHER -> c
 
 \* ================================================================= driver
 Obs == IF Mode = "judge" THEN JsonDeserialize(IOEnv.TRACE_FILE) ELSE <<>>
@@ -72,6 +90,10 @@ Init == CASE Mode = "param" -> case \in ParamCases /\ i = 0
           [] Mode = "trial" -> case \in TrialCases /\ i = 0
           [] Mode = "delta" -> case \in DeltaCases /\ i = 0
           [] Mode = "config" -> case \in ConfigCases /\ i = 0
+          [] Mode = "sreq" -> case \in SuggestRequestCases /\ i = 0
+          [] Mode = "sdec" -> case \in SuggestDecisionCases /\ i = 0
+          [] Mode = "ereq" -> case \in EarlyStopRequestCases /\ i = 0
+          [] Mode = "edec" -> case \in EarlyStopDecisionsCases /\ i = 0
           [] Mode = "judge" -> i \in 1..Len(Obs) /\ case = Obs[i].case
 Spec == Init /\ [][UNCHANGED <<case, i>>]_<<case, i>>
 Dump == PrintT(ToJson([case |-> case, expect |-> Expect(case)]))
